@@ -386,4 +386,32 @@ def make_stubs(world):
         return ok(st, t)
     S.attrs['__class__'] = class_attr
 
+
+    # ------------------------------------------------------------------ oslo.config
+    from specs.external import find_file, opt_location
+    for nm in ('opt_default', 'set_default', 'set_override', 'user', 'command_line', 'environment'):
+        S.consts['cfg.Locations.' + nm] = mk_str('$location:' + nm)
+
+    def _w_conf():
+        from oslo_config import cfg
+        return hasattr(cfg.Locations, 'opt_default') and hasattr(cfg.Locations, 'set_default') and \
+            hasattr(cfg.ConfigOpts, 'find_file') and hasattr(cfg.ConfigOpts, 'get_location')
+
+    @S.meth('find_file', doc='conf.find_file(name): the path of an existing file relative to the config dirs (a '
+            'non-empty string) or None: ghost function find_file(conf, name)', witness=_w_conf)
+    def m_find_file(eng, st, recv, pos, kw):
+        r = find_file(recv, pos[0])
+        st.assume(z3.Or(r == NONE, z3.And(V.is_str(r), z3.Length(V.s(r)) > 0)))
+        return ok(st, r)
+
+    @S.meth('get_location', doc='conf.get_location(opt, group): an object whose .location is how the option was set '
+            '(one of the cfg.Locations constants): ghost function opt_location(conf, opt, group)')
+    def m_get_location(eng, st, recv, pos, kw):
+        o = eng.alloc(st, '$Location')
+        loc = opt_location(recv, pos[0], pos[1] if len(pos) > 1 else kw.get('group', NONE))
+        st.assume(V.is_str(loc))
+        eng.set(st, o, 'location', loc)
+        return ok(st, o)
+    S.fields['location'] = ['$Location']
+
     return S
